@@ -324,6 +324,10 @@ func (pf *PosFlow) eventsOf(v ssa.Value, seen map[ssa.Value]bool) []event {
 			if (name == "Pos" || name == "End") && recv != nil && fnPkgPath(w.calleeOrNil(x)) != modRoot {
 				return pf.eventsOf(recv, seen)
 			}
+			// pos.Invalid(): a flag derived from a position is produced where the position was
+			if name == "Invalid" && recv != nil && fnPkgPath(w.calleeOrNil(x)) == modRoot+"/token" {
+				return pf.eventsOf(recv, seen)
+			}
 		}
 		return []event{{in: x}}
 	case *ssa.Extract:
@@ -371,6 +375,9 @@ func (pf *PosFlow) eventsOf(v ssa.Value, seen map[ssa.Value]bool) []event {
 		}
 		return out
 	case *ssa.UnOp:
+		if x.Op == token.NOT {
+			return pf.eventsOf(x.X, seen)
+		}
 		if x.Op == token.MUL {
 			switch addr := x.X.(type) {
 			case *ssa.FieldAddr:
